@@ -929,7 +929,39 @@ func (sw *SlidingWindow) handleLateData(eventTime time.Time, allowedLateness tim
 
 // triggerLateUpdateLocked triggers a late update for a window (must be called with lock held)
 // Late updates include complete window data (original + late data)
+//
+// Updates of one window are delivered one at a time: while an update is on its
+// way out the window counts as firing, so a late row arriving meanwhile is only
+// noted (handleLateData sets pendingLate) and goes out with the next round of this
+// loop. Without that, the trigger goroutine and the Add goroutine could each be
+// delivering an update of the same window, and the older one — built first,
+// delivered last — replaced the newer one at the consumer, losing its late rows.
 func (sw *SlidingWindow) triggerLateUpdateLocked(slot *types.TimeSlot) {
+	key := sw.getWindowKey(*slot.End)
+	for {
+		info := sw.triggeredWindows[key]
+		if info != nil {
+			info.firing = true
+		}
+		delivered := sw.emitLateUpdateOnceLocked(slot)
+		if info == nil {
+			return
+		}
+		info.firing = false
+		if !delivered || !info.pendingLate {
+			return
+		}
+		info.pendingLate = false
+		if _, open := sw.triggeredWindows[key]; !open {
+			return
+		}
+	}
+}
+
+// emitLateUpdateOnceLocked builds and delivers one late update of the window
+// (lock held on entry and exit, released while delivering). It reports whether
+// there was anything to deliver.
+func (sw *SlidingWindow) emitLateUpdateOnceLocked(slot *types.TimeSlot) bool {
 	// Find the triggered window info to get snapshot data
 	var windowInfo *triggeredWindowInfo
 	windowKey := sw.getWindowKey(*slot.End)
@@ -978,7 +1010,7 @@ func (sw *SlidingWindow) triggerLateUpdateLocked(slot *types.TimeSlot) {
 	}
 
 	if len(resultData) == 0 {
-		return
+		return false
 	}
 
 	// Update snapshot to include late data (for future late updates)
@@ -1022,6 +1054,7 @@ func (sw *SlidingWindow) triggerLateUpdateLocked(slot *types.TimeSlot) {
 	} else {
 		sw.droppedCount++
 	}
+	return true
 }
 
 // closeExpiredWindows closes windows that have exceeded allowedLateness.
